@@ -30,7 +30,7 @@ TAGS = [None, "use.with_os=win", "use.with_os=linux", "not.with_os=win", "only.w
         "use.with_flag=yes", "not.with_flag=off", "use.with_flag=maybe", "use.with_nosuch=1", "not.with_nosuch=1", "wip", "use.with_os"]
 OS_VALUES = ["win", "linux", "", "Win"]
 POSITIVE = ("use", "only", "active")
-NEGATIVE = ("not", "not_active")
+NEGATIVE = ("not", "not_active", "not_on")      # "not_on": custom negative prefix of the custom-prefixes variant
 
 
 class Provider(object):
@@ -46,14 +46,14 @@ class Provider(object):
         return default
 
 
-def parse_tag(t, sep="="):
+def parse_tag(t, sep="=", allowed=None):
     if t is None or ".with_" not in t or sep not in t.split(".with_", 1)[1]:
         return None
     prefix, rest = t.split(".with_", 1)
     cat, val = rest.split(sep, 1)
     if not re.match(r"^\w+(\.\w+)*$", cat):
         return None
-    if prefix not in POSITIVE + NEGATIVE:
+    if prefix not in (allowed or (POSITIVE + ("not", "not_active"))):
         return None
     return prefix, cat, val
 
@@ -72,6 +72,9 @@ def h_active(sx):
             tags.append(t.replace("=", sep))
     if sep != "=":
         tags.append("use.with_os=win")      # written with the DEFAULT separator: not an active tag of this matcher
+    if p.get("custom_prefixes"):
+        # prefixes passed to the constructor: "not_on" replaces "not" (negative), the positive ones stay
+        tags = [t.replace("not.with_", "not_on.with_") for t in tags] + ["not.with_os=win"]     # plain "not." is no prefix here
     os_cur = sx.choice("os", OS_VALUES)
     ver_cur = sx.int("ver")
     flag_cur = sx.bool("flag")
@@ -110,6 +113,8 @@ def h_active(sx):
     if sep != "=":
         # custom value separator - built after a default matcher exists in the same process
         matcher = ActiveTagMatcher(prov, value_separator=sep)
+    if p.get("custom_prefixes"):
+        matcher = ActiveTagMatcher(prov, tag_prefixes=["use", "only", "active", "not_on", "not_active"])
     if p.get("composite_matcher"):
         other = ActiveTagMatcher({"os": "never-matches"})
         matcher = CompositeTagMatcher([matcher, other])
@@ -149,7 +154,7 @@ def h_active(sx):
     def formula(known_extra=None):
         cats = {}
         for t in tags:
-            pt = parse_tag(t, sep)
+            pt = parse_tag(t, sep, ("use", "only", "active", "not_on", "not_active") if p.get("custom_prefixes") else None)
             if pt:
                 cats.setdefault(pt[1], []).append(pt)
         disj = []
@@ -192,7 +197,7 @@ def jobs(tier, seed):
                 {"ver_compare": "ge", "provider": "composite"}, {"ver_compare": "ge", "composite_matcher": True},
                 {"ver_compare": "ge", "provider": "atvp-real"}, {"ver_compare": "le", "provider": "composite-real"},
                 {"ver_compare": "ge", "history": True}, {"ver_compare": "eq", "history": True, "provider": "composite-real"},
-                {"ver_compare": "ge", "separator": ":"}]
+                {"ver_compare": "ge", "separator": ":"}, {"ver_compare": "le", "custom_prefixes": True}]
     # three slots: tags of one category separated by an active tag of ANOTHER category (grouping must not depend on adjacency)
     os_tags = [i for i, t in enumerate(TAGS) if t and "with_os" in t]
     other = [i for i, t in enumerate(TAGS) if t and ("with_ver=3" in t or "with_flag=yes" in t or "with_ver=5" in t)]
